@@ -1,0 +1,35 @@
+//go:build verif
+
+package lossy
+
+import "image"
+
+// Verification hook for the pixel import of the lossy encoder on a RECYCLED
+// encoder (property C19: the imported planes are a function of the image
+// alone, whatever the encoder object was used for before). Compiled only with
+// the build tag "verif"; a thin wrapper around NewEncoder / ReleaseEncoder, no
+// behaviour of its own.
+
+// VerifImportPlanesAfter imports prior (NewEncoder, ReleaseEncoder) and then
+// img, and returns copies of the padded Y/U/V planes of the second import.
+// reused reports that the second NewEncoder call was handed the very encoder
+// object of the first one by the package's encoder pool (this needs equal
+// macroblock dimensions); the pair is retried up to tries times until that
+// happens, the planes are those of the last attempt.
+func VerifImportPlanesAfter(prior image.Image, priorCfg EncodeConfig, img image.Image, cfg EncodeConfig, tries int) (y, u, v []byte, yStride, uvStride, mbW, mbH int, reused bool) {
+	for t := 0; t < tries || t == 0; t++ {
+		p := NewEncoder(prior, priorCfg)
+		ReleaseEncoder(p)
+		enc := NewEncoder(img, cfg)
+		reused = enc == p
+		y = append(y[:0], enc.yPlane...)
+		u = append(u[:0], enc.uPlane...)
+		v = append(v[:0], enc.vPlane...)
+		yStride, uvStride, mbW, mbH = enc.yStride, enc.uvStride, enc.mbW, enc.mbH
+		ReleaseEncoder(enc)
+		if reused {
+			break
+		}
+	}
+	return
+}
